@@ -508,6 +508,8 @@ impl LiveActor {
             Err(ConnectError::RemoteAbort(AbortReason::AlreadySyncing)) => {
                 debug!(?reason, "remote abort, already syncing");
                 if let Some(resync) = self.state.connect_declined(&namespace, peer) {
+                    #[cfg(feature = "verif")]
+                    crate::verif::live_exit(format!("\"ret\":{resync},\"post\":{}", self.verif_slot_json(&namespace, &peer)));
                     if resync {
                         self.sync_with_peer(namespace, peer, SyncReason::Resync);
                     }
@@ -608,6 +610,8 @@ impl LiveActor {
         let Some((started, resync)) = self.state.finish(&namespace, peer, &origin, result) else {
             return;
         };
+        #[cfg(feature = "verif")]
+        crate::verif::live_exit(format!("\"ret\":[true,{resync}],\"post\":{}", self.verif_slot_json(&namespace, &peer)));
 
         let ev = SyncEvent {
             peer,
@@ -891,6 +895,15 @@ impl LiveActor {
     /// 2 = running (accept); `None` if the document is not in the sync set or the peer unknown.
     pub fn verif_slot(&self, namespace: &NamespaceId, peer: &PublicKey) -> Option<(u8, bool)> {
         self.state.verif_slot(namespace, peer)
+    }
+
+    /// The slot of a (document, peer) pair as `[slot,resync]` (hook H10: logged where the live actor consumes the
+    /// return value of `finish` / `connect_declined`).
+    fn verif_slot_json(&self, namespace: &NamespaceId, peer: &PublicKey) -> String {
+        match self.state.verif_slot(namespace, peer) {
+            Some((slot, resync)) => format!("[{slot},{resync}]"),
+            None => "null".to_string(),
+        }
     }
     /// The `replica_events_rx` arm of the actor loop.
     pub async fn verif_replica_event(&mut self, event: crate::Event) -> Result<()> {
